@@ -64,6 +64,10 @@ class Seq:
         where ("idx", k) addresses the k-th entry of the current real history"""
         hist_prev = []
         for stepno, c in enumerate(script):
+            if c[0] == "sleep":
+                # make sure the next command runs in a later second than the previous one
+                time.sleep(1.0 - (time.time() % 1.0) + 0.02)
+                continue
             before_tree = sb.snapshot()
             hist_before = sb.history() or []
             if c[0] == "rename":
@@ -109,6 +113,11 @@ class Seq:
             live = py_live(hist_after)
             implied = sorted(py_param(hist_after, i) for i in live)
             counts = tree_counts(sb)
+            roots = [py_root(i) for i in live]
+            if len(set(roots)) != len(roots):
+                self.oracle_fail.append({"why": "an operation was redone while it was applied: its effect is in the tree twice",
+                                         "step": stepno, "cmd": c, "tree_ops": counts, "live_entries": live})
+                return
             if counts != implied:
                 self.oracle_fail.append({"why": "the tree is not in the state the history implies", "step": stepno, "cmd": c,
                                          "tree_ops": counts, "implied_by_history": implied})
@@ -170,6 +179,13 @@ def py_live(hist):
     return [e["id"] for e in hist if not e.get("revert_of") and e["id"] not in reverted]
 
 
+def py_root(rid):
+    """the original operation a chain of redo ids stands for"""
+    while rid.startswith("redo-"):
+        rid = rid[5:].rsplit("-", 1)[0]
+    return rid
+
+
 def py_param(hist, rid):
     """which of the three operations an entry id stands for (via its search term / redo chain)"""
     by = {e["id"]: e for e in hist}
@@ -201,6 +217,8 @@ def script_random(r, n):
             out.append((r.choice(["undo", "redo"]), ("idx", r.randrange(0, 6))))
         else:
             out.append((r.choice(["undo", "redo"]), "bogus"))
+        if r.random() < 0.12:
+            out.append(("sleep",))
     if out[0][0] != "rename":
         out[0] = ("rename", 3)
     return out
@@ -223,6 +241,13 @@ def run(R):
     scripts.append([("rename", 3), ("undo", "latest"), ("redo", "latest"), ("redo", "latest")])      # former double redo
     scripts.append([("rename", 1), ("undo", "latest"), ("rename", 1), ("rename", 1)])               # same-second identical rename
     scripts.append([("rename", 3), ("undo", "latest"), ("redo", "latest"), ("undo", ("idx", 0)), ("undo", "latest"), ("redo", "latest")])
+    # redo of a redo entry, then once more in a later second (must be rejected: already redone)
+    scripts.append([("rename", 3), ("undo", "latest"), ("redo", "latest"), ("undo", "latest"), ("redo", "latest"),
+                    ("sleep",), ("redo", "latest")])
+    scripts.append([("rename", 3), ("undo", "latest"), ("sleep",), ("redo", ("idx", 0)), ("sleep",), ("undo", ("idx", 2)),
+                    ("sleep",), ("redo", ("idx", 2)), ("sleep",), ("redo", ("idx", 2)), ("redo", ("idx", 0))])
+    scripts.append([("rename", 1), ("sleep",), ("rename", 3), ("undo", ("idx", 1)), ("sleep",), ("redo", ("idx", 1)),
+                    ("sleep",), ("redo", ("idx", 1)), ("undo", ("idx", 0)), ("undo", ("idx", 0))])
     scripts += [script_random(r, r.randint(4, 12)) for _ in range(10 if quick else 300)]
     fails, dis = [], []
     stats = {"sequences": 0, "commands": 0, "lengths": {}}
@@ -231,7 +256,7 @@ def run(R):
             S = Seq(M)
             S.run(sb, sc, R)
             stats["sequences"] += 1
-            stats["commands"] += len(sc)
+            stats["commands"] += sum(1 for c in sc if c[0] != "sleep")
             stats["lengths"][len(sc)] = stats["lengths"].get(len(sc), 0) + 1
             R.case(json.dumps(sc), nontrivial=len(sc) >= 2)
             if len(R.coverage["samples"]) < 3:
